@@ -489,6 +489,37 @@ func nbnsScenarios(c *vf.Ctx, B int) []*scenario {
 				checkQueryResp(x, "clientNX", 0x1111, "NX", ipX, r1, true)
 				stopAndDrain(x, s)
 			}})
+			// J2: a FLOOD of undecodable datagrams (200, one after the other, from one client) and then a request:
+			// whatever the server accounts per datagram (a slot, a counter, a buffer) is given back for refused ones
+			// too - the request is answered and Stop returns. One schedule (bound 0): the point is the count.
+			out = append(out, &scenario{name: "nbns-" + im.name + "-flood-of-junk-datagrams-then-a-request-then-stop", keys: respKeys, bound: 0, maxSteps: 400000, body: func(x *exec) {
+				s, t := im.mk()
+				seed(t)
+				if err := s.Start(); err != nil {
+					panic("harness: start: " + err.Error())
+				}
+				hj := vrt.GoNamed("clientJunk", func() {
+					conn, err := vnet.ListenUDP("udp", &net.UDPAddr{IP: net.IPv4(127, 0, 0, 1)})
+					if err != nil {
+						panic("harness: " + err.Error())
+					}
+					defer conn.Close()
+					for i := 0; i < 200; i++ {
+						junk := []byte{byte(i), 0x34, 0x00}
+						if i%2 == 1 {
+							junk = []byte{byte(i), 0x78, 0x00, 0x00, 0x00, 0x05, 0x00, 0x00, 0x00, 0x00, 0x00, 0x00, 0x20}
+						}
+						conn.WriteToUDP(junk, srvUDP)
+						vrt.Sleep(sec / 100) // let the server take it: no queue is meant to overflow here
+					}
+				})
+				vrt.Join(hj)
+				var r1 []resp
+				h1 := vrt.GoNamed("clientNX", func() { r1 = udpExchange(srvUDP, mkQuery(0x1111, 0, "NX")) })
+				vrt.Join(h1)
+				checkQueryResp(x, "clientNX", 0x1111, "NX", ipX, r1, true)
+				stopAndDrain(x, s)
+			}})
 			// B: Stop at any moment relative to two in-flight requests
 			out = append(out, &scenario{name: "nbns-" + im.name + "-stop-race", keys: respKeys, bound: B, body: func(x *exec) {
 				s, t := im.mk()
